@@ -1,15 +1,17 @@
 CHECK = {
     "suites": [suite("allocate", "c03", 6000, 600000, stdin=True),
                suite("raw", "c03", 2500, 120000, stdin=True, args=["-suite", "raw"]),
-               suite("block", "c03", 2000, 80000, stdin=True, args=["-suite", "block"])],
+               suite("block", "c03", 2000, 80000, stdin=True, args=["-suite", "block"]),
+               suite("seq", "c03", 2500, 100000, stdin=True, args=["-suite", "seq"])],
     "gen": [{"pkg": "extract_c03", "out": "lean/ClusterVerif/Gen/C03.lean"}],
     "lean_sources": ["ClusterVerif/Model/C03Skeleton.lean", "ClusterVerif/Gen/C03.lean", "ClusterVerif/Model/C03.lean", "ClusterVerif/Spec/C03.lean", "ClusterVerif/Lemmas/C03.lean", "ClusterVerif/Lemmas/C03Sort.lean",
                      "ClusterVerif/Model/C03Pipeline.lean", "ClusterVerif/Lemmas/C03Pipeline.lean", "ClusterVerif/Model/C03Block.lean",
-                     "ClusterVerif/Lemmas/C03Block.lean", "ClusterVerif/Spec/C03Block.lean", "ClusterVerif/Model/C04.lean", "ClusterVerif/Model/Pin.lean"],
+                     "ClusterVerif/Lemmas/C03Block.lean", "ClusterVerif/Spec/C03Block.lean", "ClusterVerif/Model/C03Alloc.lean", "ClusterVerif/Lemmas/C03Alloc.lean", "ClusterVerif/Model/C04.lean", "ClusterVerif/Model/Pin.lean"],
     "rule": "cases = (strategy, factor pair, 0-8 peers each in one of 5 metric states, current/exclusion/priority lists) "
             "drawn from one splitmix64 stream per case index; suite raw: 0-14 raw metric arrivals (3 names, members and non-members, invalid/expired/non-numeric, repeats in any order) "
             "+ peerset view (none / failing / members) through the real pubsubmon.Monitor; suite block: BlockAllocate requests (cid.Undef via adder.BlockAllocate, stored entry, factors, expiry, "
-            "user allocations, follower, ping states); non-trivial = positive factors or everywhere (-1,-1); distinct by case line",
+            "user allocations, follower, ping states); suite seq: three-step histories on one CID through the real Cluster.pin and vacatePeer->repinFromPeer "
+            "(pin; pin again under another name = re-allocation from the stored pin; a peer's metric replaced by valid/expired/invalid/non-numeric and the peer vacated); non-trivial = positive factors or everywhere (-1,-1); distinct by case line",
     "trusted_base": ["suites allocate/block: metrics.Store-backed monitor stands in for pubsubmon (LatestValid is the real code); suite raw: the real pubsubmon.Monitor fed through LogMetric",
                      "verif_export.go wrappers (VerifNewCluster, VerifAllocate)"],
     "assumptions": ["time does not advance between LatestMetrics and the second Discard() test in SortNumeric",
@@ -25,7 +27,12 @@ META = {
             "Round 7: the abstract metric-state input is derived, not assumed: pipeline_yields_states proves the composition of the transcribed Store/Window/LatestValid/peerset-filter steps "
             "over RAW metric arrivals equal to it (allowed_holds_raw), suite raw ties that transcription to the real pubsubmon.Monitor; classification_precedence is a theorem about the regenerated "
             "classifier structure for all overlaps of the three lists; sort_shape_sound about the regenerated discard/parse/comparison structure of SortNumeric; BlockAllocate (suite block) and Cluster.pin "
-            "are proved to consult the same relation with the inputs the property names.",
+            "are proved to consult the same relation with the inputs the property names. "
+            "Round 8: the shipped allocators, the argument order of the allocator call and repinFromPeer/vacatePeer are go/ast-regenerated STRUCTURES that the model interprets "
+            "(allocate_interprets_gen for all inputs; swapped concatenation / direction / call arguments / a forgotten group refuted with witnesses; repin_input: the failed peer is the exclusion list, "
+            "the stored holders the current ones); stable_of_count / allocate_idempotent (any admitted allocation is a fixed point of re-allocation under the same metrics, whatever the priority list); "
+            "blacklisted_only_kept_verbatim (an excluded peer survives only in the verbatim stored list with min other healthy holders); holds_ok_iff / holds_err_iff / holds_everywhere_iff give the "
+            "Prop-level reading of the Bool checker; suite seq drives pin -> re-pin -> vacatePeer histories through the real callers and checks every step (incl. stability and 'a failed re-pin changes nothing').",
     "note": "Trusted: Lean kernel (+propext, Classical.choice, Quot.sound), the hand-written model/spec, the Go harness and its store-backed monitor, "
             "verif_export.go wrappers. A non-numeric metric is treated as unusable for new allocations.",
     "technique": "Lean 4 theorem over relational model + regenerated source skeleton checked by decide + differential correspondence with the real allocate()",
